@@ -253,7 +253,8 @@ StepRcn(S, f, enforce) ==
   LET a == f.a vis == Vis(S) IN
   CASE f.pc = 0 ->
          IF a.node \in vis.Node
-         THEN IF FixNodeExit THEN SetPc(S, 2)
+         THEN \* repair: subtree rows are written last, so a node without any is incomplete
+              IF FixNodeExit /\ ~\E x \in vis.Sub : x[1] = a.node THEN SetPc(S, 2)
               ELSE IF <<a.node, a.arg>> \notin vis.Arg \/ ~(SubRows(a.node, a.sub) \subseteq vis.Sub)
                    THEN Pop(Dev(S, "NodeExistsEarlyExit")) ELSE Pop(S)
          ELSE SetPc(Stage(S, "Node", {a.node}), 1)
